@@ -197,8 +197,8 @@ CLAIMED = {
               'retained column, same for rows (origin_x, origin_y, exact rationals); VGLVLS\' has one more entry than layers and '
               'equals the edges first..first+m of the source (levels_window); SDATE/STIME are the flag of the first selected step '
               '(start_is_first_selected, using the calendar round-trip encJ(decJ f) = f proved for C12); the decoded times are the '
-              'selected sub-range of the source times (time_window_partial, side condition: number of listed variables unchanged, '
-              'checked on every case). Correspondence + independent oracle recomputing origin, edges, times and SDATE/STIME/TSTEP '
+              'selected sub-range of the source times (time_window, for files whose listable variables are all listed - '
+              'slice_keeps_varlist shows a window operation then never changes the list). Correspondence + independent oracle recomputing origin, edges, times and SDATE/STIME/TSTEP '
               'from the source file. One genuine defect repaired (TSTEP of 24 h or more became 0).'),
         note=BASE_NOTE + 'float32/float64 rounding of XORIG += k*XCELL is not modelled (dyadic cells in the correspondence); PERIM windows of boundary files only through C10.',
         technique='Lean 4 proof (list/arith lemmas over Rat and Int, calendar round-trip) + model/implementation correspondence + independent oracle',
